@@ -564,6 +564,10 @@ func runC10(ctx *Ctx) *Report {
 	m := NewModel()
 	defer m.Close()
 	for _, c := range cases {
+		if rep.Full() {
+			rep.Notes = append(rep.Notes, "stopped early: 10 violations collected")
+			break
+		}
 		diffs := runMassive(m, c)
 		b, _ := json.Marshal(c)
 		rep.Record(c, string(b), len(c.Blocks) >= 2 || c.Known != "", diffs)
@@ -869,6 +873,10 @@ func runC11(ctx *Ctx) *Report {
 	}
 	cases = append(cases, faultCase{Kind: "massive-fault", Op: "rwalk", Doc: "-", Sched: 5, Fault: "callback", At: 0})
 	for _, c := range cases {
+		if rep.Full() {
+			rep.Notes = append(rep.Notes, "stopped early: 10 violations collected")
+			break
+		}
 		diffs := runFault(c)
 		b, _ := json.Marshal(c)
 		rep.Record(c, string(b), c.Fault != "none" || strings.Contains(c.Text, "failing") && !strings.Contains(c.Text, " 0 failing"), diffs)
